@@ -36,27 +36,32 @@ def run(cx):
     cx.cover["tlaps_obligations_proved"] = cx.tlapm("VMRunProof")
     # ---- G: enumerate histories
     maxlen = 3
-    cfg = "CONSTANTS MaxLen = %d\n MaxLate = %d\nINIT Init\nNEXT Next\nINVARIANT Emit\nCHECK_DEADLOCK FALSE\n" % (maxlen, 1 if cx.quick() else 2)
-    rh = cx.tlc("VMRunHist", cfg_text=cfg, workers=4, name="hist_gen", timeout=1800, heap="6g")
-    cx.tlc_must_pass(rh, "VMRunHist")
-    hists = [json.loads(s) for s in rh.tuples("HIST")]
+    hists = []
+    for fam, ml in (("base", maxlen), ("import", maxlen if cx.quick() else 4)):
+        cfg = "CONSTANTS MaxLen = %d\n MaxLate = %d\n Family = \"%s\"\nINIT Init\nNEXT Next\nINVARIANT Emit\nCHECK_DEADLOCK FALSE\n" % (
+            ml, 1 if cx.quick() else 2, fam)
+        rh = cx.tlc("VMRunHist", cfg_text=cfg, workers=4, name="hist_gen_" + fam, timeout=1800, heap="6g")
+        cx.tlc_must_pass(rh, "VMRunHist")
+        hists += [json.loads(s) for s in rh.tuples("HIST")]
+    cx.cover["import_histories"] = len([h for h in hists if any(v["kind"].startswith("imp") for v in h["inv"])])
     if not hists:
         raise vlib.Inconclusive("VMRunHist emitted no histories")
     if not cx.quick():
         # length 5 and 6 sampled (seeded)
         import random
         rnd = random.Random(cx.seed)
-        kinds = ["normal", "error", "panic", "deeppanic", "overflow", "opoverflow", "cancelled"]
+        kinds = ["normal", "error", "panic", "deeppanic", "overflow", "opoverflow", "cancelled", "impok", "imperr", "impcancel"]
         for _ in range(8000):
             n = rnd.choice([4, 5, 6])
             inv, used = [], set()
             for i in range(1, n + 1):
                 kind = rnd.choice(kinds)
-                ctxk = rnd.choice(["cancel", "background"]) if kind in ("normal", "error") else "cancel"
+                ctxk = rnd.choice(["cancel", "background"]) if kind in ("normal", "error", "impok", "imperr") else "cancel"
                 late = [c for c in range(1, i) if c not in used and inv[c - 1]["ctx"] == "cancel" and rnd.random() < 0.3]
                 used.update(late)
                 inv.append({"api": rnd.choice(["RunCode", "Call"]), "kind": kind, "ctx": ctxk, "late": late})
-            exp = [{"normal": "value", "error": "index error", "panic": "panic", "deeppanic": "panic", "overflow": "anyerror", "opoverflow": "anyerror", "cancelled": "ctxerr"}[v["kind"]] for v in inv]
+            exp = [{"normal": "value", "error": "index error", "panic": "panic", "deeppanic": "panic", "overflow": "anyerror", "opoverflow": "anyerror", "cancelled": "ctxerr",
+                    "impok": "value", "imperr": "anyerror", "impcancel": "ctxerr"}[v["kind"]] for v in inv]
             hists.append({"inv": inv, "exp": exp})
     rows = [{"id": i, "inv": h["inv"], "exp": h["exp"]} for i, h in enumerate(hists)]
     hin = cx.path("hist.ndjson")
